@@ -36,7 +36,7 @@ CHECKS = {
          "struct shapes other than P: see C17 family; animator histories: E2 explorer", "DESIGN.md 3/C08"),
  "C09": (E1, "explicit-state exploration of the timeline object API: all operation sequences (update/clone/start_with on a timeline and a clone slot) up to depth 4 quick / 5 thorough, memo-table oracle from pristine twins",
          "State = history (stateless DFS on the real objects); every update in every sequence must equal the memo entry for (latest start value, time); metadata never changes.",
-         "depth bound; 5 probe times per timing", "DESIGN.md 3/C09"),
+         "depth bound; 7 probe times per timing", "DESIGN.md 3/C09"),
  "C10": (E1, "bounded exhaustive enumeration with a twin (relational oracle) plus reference model on the first segment",
          "All keyframe lists up to the bound x 13 timings x 3 start values x 64-per-cycle time grid: t<=delay => exactly v, beyond the second frame / reverse pass / later cycles / after end => bit-equal to the twin without start_with, first segment => reference blend from v.",
          "keyframe count bound; flags at pass boundaries pinned by C03", "DESIGN.md 3/C10"),
@@ -80,11 +80,11 @@ ADDENDA = {
  "C03": "As built: 504 configurations (negative delays, cycle 1e-8 .. 1e3) + 96 with repeat counts 2^24-1 .. u32::MAX; three comparison regimes (exact / exact-phase / jitter window); every evaluation is also compared with the reported duration (terminal strictly before it or not terminal strictly after it is a violation); keyframe-less timelines report the same metadata. A merged pair of timelines with neighbouring f32 cycles must report no cycle duration; cycle lengths include 41, 47, 55 s (d * (1/d) < 1). Cycles of 3, 7 and 11 units of the smallest subnormal. Merged with a shorter Times(3) twin the greater repeat is reported. The merged twin starts 4 s later: the greater of the two totals is reported.",
  "C04": "As built: pool of 19 timeline shapes (merged, delayed, keyframe-less, infinite, ...), optional third animated state, de-duplicating BFS keyed on the complete mutable state, and a non-dyadic companion (advances on and 1 ulp around the reported total, all histories to depth 5/6). The pool has a shape with two keyframes tied at 100% (all E2 checks).",
  "C05": "As built: the same 19-shape pool incl. a negative-delay shape; an exact, model-free self-consistency clause (values bit-identical to the state's timeline probed at the animator's own clock), also run on the non-dyadic pool. A state-type twin replays every history on a state enum whose animated states are P(false) / P(true) and on the fieldless enum (identical observations). A huge-step companion takes single steps of 2^64 s .. f32::MAX inside short histories (saturating clock). The negative-delay shape also serves as the initial state's timeline. Every third configuration registers a decoy timeline for X before the real one (the most recent on() wins). One shape carries an easing on its 0% keyframe.",
- "C06": "As built: a very long frame (32768 s) in the alphabet; companions for non-representable steps (0.1 .. 0.7, within float rounding) and for nanosecond-scale steps (1 ns .. 1 us x 512..4096 against one advance of the sum). A huge-steps companion (2^36 s timeline, advance(2^35) against two advance(2^34), up to 2^40 s). The huge-steps companion reaches 2^63, 2^64, 2^65, 2^100 s and f32::MAX. The negative-delay shape may be the initial timeline (histories whose first evaluation is a zero-length advance excepted). The normal form also removes detours from X/Y into the un-animated U1 and straight back.",
+ "C06": "As built: a very long frame (32768 s) in the alphabet; companions for non-representable steps (0.1 .. 0.7, within float rounding) and for nanosecond-scale steps (1 ns .. 1 us x 512..4096 against one advance of the sum). A huge-steps companion (2^36 s timeline, advance(2^35) against two advance(2^34), up to 2^40 s). The huge-steps companion reaches 2^63, 2^64, 2^65, 2^100 s and f32::MAX. The negative-delay shape may be the initial timeline (histories whose first evaluation is a zero-length advance excepted). The normal form also removes detours from X/Y into the un-animated U1 and straight back. An absorbed-cycle companion: timelines whose whole active part lies below half an ulp of the delay (reported total == delay), every sequence of up to 4 steps from {0, D/4, D/2, D} against one advance of the sum, bit-equal, advance(0) a no-op on both sides.",
  "C07": "As built: 19-shape pool incl. keyframe-less timelines and merged components with different repeat counts; non-dyadic companion against the reported duration. The state-type twin of C05 is run here too. An over-on-entry companion enters states whose timeline has a total duration <= 0. An exact-landing companion delivers exactly the total duration for None/Times 0..3 x reverse x delay x cycle. The over-on-entry companion reports a panic as a violation.",
  "C08": "As built: also a second struct with attribute noise (P2) and a remote proxy with markers on some fields only (R3Proxy), both driven through keyframe_from and setters. The animator family starts in each of the four states and tracks the state the caller configured / set.",
- "C09": "As built: plain and merged timeline objects through one generic DFS; the before-start time of undelayed objects is negative zero; one probe time lies exactly on a keyframe position.",
- "C10": "As built: 4 start values (far away, Default, equal to the 0% value, large odd numbers f32 still holds exactly), every other case substitutes twice.",
+ "C09": "As built: plain and merged timeline objects through one generic DFS; the before-start time of undelayed objects is negative zero; one probe time lies exactly on a keyframe position, one exactly on the end of the first cycle (the hold-at-100% instant, reachable after a time inside the second cycle).",
+ "C10": "As built: 4 start values (far away, Default, equal to the 0% value, large odd numbers f32 still holds exactly), every other case substitutes twice. Every third started timeline is also cloned AFTER start_with (clone, clone_from into an unstarted and into a differently started object): bit-equal to the original over the whole grid.",
  "C11": "As built: thorough covers all 9! orders of all 9 positions; a grid with positions outside [0,1]; WIDE timelines (up to 65 537 keyframes) inserted in six structured orders. Timings with a huge delay/cycle ratio (delay 65536 / cycle 3).",
  "C12": "As built: 600 stub components (negative delays and totals, near-equal cycles, Times(u32::MAX)), nested merged timelines, wide lists of up to 1025 components. MergedTimeline::of is fed from a Vec, a filtered iterator and a from_fn iterator in rotation. clone_from runs under catch_unwind.",
  "C13": "As built: 1296 user-built CubicBezierEasing curves, custom easings composed from built-ins, and timelines in which two different custom easings follow one another.",
